@@ -35,6 +35,16 @@ instance : Zero (Expc K) := ⟨⟨0, 0⟩⟩
 instance : One (Expc K) := ⟨⟨1, 0⟩⟩
 end
 
+/-- rationals with −∞ (max-plus carrier of the driver); `none` = −∞ -/
+structure RatBot where
+  v : Option Rat
+deriving DecidableEq, Repr, Inhabited
+instance : Add RatBot := ⟨fun a b => match a.v, b.v with | some x, some y => ⟨some (x + y)⟩ | _, _ => ⟨none⟩⟩
+instance : Max RatBot := ⟨fun a b => match a.v, b.v with
+  | some x, some y => ⟨some (max x y)⟩ | some x, none => ⟨some x⟩ | none, y => ⟨y⟩⟩
+instance : OfNat RatBot 0 := ⟨⟨some 0⟩⟩
+instance : OfNat RatBot 1 := ⟨⟨some 1⟩⟩
+
 /-- closed-semiring star where the model needs one (partial: `none` = undefined/divergent) -/
 class HasStar (K : Type) where
   star : K → Option K
